@@ -951,6 +951,9 @@ class Interp:
         ac = self.assoc_const(c)
         if ac is not None:
             return ac
+        if re.match(r"^(?:\w+::)*[A-Z][A-Z0-9_]*$", c):
+            # a named constant of a non-integer type (Duration, &str tables, ...): opaque; arithmetic on it is rejected where it is used
+            return Opaque("const:" + c)
         raise Unsupported("constant " + c)
 
     def assoc_const(self, c):
@@ -1030,6 +1033,8 @@ class Interp:
                 return Int(be.resize(v.t, v.w, it[0], v.signed), it[0], it[1])
             if kind in ("Transmute",) and isinstance(v, Int) and int_type(ty) and int_type(ty)[0] == v.w:
                 return Int(v.t, v.w, int_type(ty)[1])
+            if kind == "Subtype":
+                return v                        # same value at a subtype (opaque types revealed, lifetimes)
             if kind.startswith("PointerCoercion") or kind in ("PtrToPtr",):
                 if "Unsize" in kind and re.match(r"&(mut )?\[", ty.strip()) and isinstance(v, Ref):
                     tgt = v.cell.v
@@ -1123,6 +1128,20 @@ class Interp:
         if m:
             fields = split_top(m.group(2))
             return Tup([self.operand(p, f.split(": ", 1)[1]) for f in fields], m.group(1))
+        if s.endswith(" }"):
+            # struct aggregate whose type arguments contain characters the simple pattern above does not allow (`impl Trait<Item = &T>` ...)
+            depth = 0
+            for i, ch in enumerate(s):
+                if ch == "<":
+                    depth += 1
+                elif ch == ">" and s[i - 1] not in "-=":
+                    depth -= 1
+                elif depth == 0 and s.startswith(" { ", i):
+                    name = strip_generics(s[:i])
+                    if re.match(r"^[\w:]+$", name):
+                        fields = split_top(s[i + 3:-2])
+                        return Tup([self.operand(p, f.split(": ", 1)[1]) for f in fields], name)
+                    break
         if re.match(r"^(?:\w+::)*[A-Z]\w*$", s):
             return Tup([], s)                       # unit struct
         hook = self.models.get("__rvalue__")
